@@ -282,19 +282,28 @@ impl Object {
         }
     }
 
-    /// Frees the memory address this pointer points to
-    /// Plus all addresses inside the array (if it is an array)
+    /// Frees this object and every object that can be reached from it.
+    /// Each of them is freed exactly once, also when it is stored more than once
+    /// (the same string in two elements, an array that contains itself).
     pub fn free_recursive(self) {
-        if self.tag() == Type::Array {
-            // Safety: We've asserted the type
-            unsafe {
-                for o in self.as_vec_unchecked() {
-                    o.free();
-                }
+        let mut seen = std::collections::HashSet::new();
+        let mut found = Vec::new();
+        let mut todo = vec![self];
+        while let Some(o) = todo.pop() {
+            if !o.is_heap_allocated() || !seen.insert(o.as_ptr()) {
+                continue;
+            }
+            found.push(o);
+
+            if o.tag() == Type::Array {
+                // Safety: We've asserted the type
+                todo.extend_from_slice(unsafe { o.as_vec_unchecked() });
             }
         }
 
-        self.free();
+        for o in found {
+            o.free();
+        }
     }
 }
 
